@@ -79,6 +79,88 @@ def wf_map_parts(v, aw, dw, al, next_addr):
     ]
 
 
+# ---- second layer of the representation invariant: alignment rule and window geometry -------------------------------
+# Stated over three DEFINED symbols so that the quantified part stays in uninterpreted functions + linear arithmetic (z3 diverges
+# on `mod`/`div` by symbolic terms under quantifiers, DESIGN.md 8.3 item 4).  Their definitions are unfolded only at ground terms:
+#     Al(x, a)   :=  x % 2**a == 0            x is a multiple of 2**a
+#     Dv(t, a)   :=  2**a % t == 0            t divides 2**a
+#     fdiv(x, y) :=  x // y                   (y >= 1)
+Al = z3.Function("AlignedTo", z3.IntSort(), z3.IntSort(), z3.BoolSort())
+Dv = z3.Function("DividesPow2", z3.IntSort(), z3.IntSort(), z3.BoolSort())
+fdiv = z3.Function("fdiv", z3.IntSort(), z3.IntSort(), z3.IntSort())
+
+
+def def_Al(x, a):
+    return Al(x, a) == (x % pow2(a) == 0)
+
+
+def def_Dv(t, a):
+    return Dv(t, a) == (pow2(a) % t == 0)
+
+
+def def_fdiv(x, y):
+    return fdiv(x, y) == x / y
+
+
+def window_geometry(s, e, t, c):
+    return z3.And(AWc(c) > 0, DWc(c) > 0, ALc(c) >= 0, t >= 1, Dv(t, ALc(c)), e - s >= fdiv(pow2(AWc(c)), t))
+
+
+def wf_align_parts(v, al):
+    """  aligned-ranges    every range starts at, and has a size that is, a multiple of 2**alignment of the map
+      window-geometry   a window entry's ratio T is >= 1 and divides 2**alignment of the WINDOW's map (add_window refuses a
+                        ratio that is not a power of two or exceeds it), and the entry spans at least the window's own
+                        address space divided by T
+    proved inductive separately from the first layer (so that the first layer's obligations stay as they were); the
+    divisibility steps z3 cannot do are GROUND INSTANCES of lemmas proved in Lean (lemmas/Align.lean): lemma_* below."""
+    inr = z3.And(0 <= _i, _i < v.n)
+    return [
+        ("aligned-ranges", z3.ForAll([_i], z3.Implies(inr, z3.And(Al(v.S[_i], al), Al(v.E[_i] - v.S[_i], al))))),
+        ("window-geometry", z3.ForAll([_i], z3.Implies(z3.And(inr, v.iswin[v.V[_i]]),
+                                                      window_geometry(v.S[_i], v.E[_i], v.T[_i], v.V[_i])))),
+    ]
+
+
+def wf_align_instance(v, al, k):
+    """the second layer instantiated at index k (a consequence of wf_align; used where the quantified form would only feed
+    the solver's E-matching with power-of-two terms)"""
+    return z3.Implies(z3.And(0 <= k, k < v.n),
+                      z3.And(Al(v.S[k], al), Al(v.E[k] - v.S[k], al),
+                             z3.Implies(v.iswin[v.V[k]], window_geometry(v.S[k], v.E[k], v.T[k], v.V[k]))))
+
+
+def wf_align(v, al):
+    return z3.And(*[f for _, f in wf_align_parts(v, al)])
+
+
+def geometry_link(ident, aw, dw, al):
+    """AWc/DWc/ALc are DEFINED as the (immutable: read-only properties set once in __init__) geometry of the map with that identity"""
+    return z3.And(AWc(ident) == aw, DWc(ident) == dw, ALc(ident) == al)
+
+
+# ---- ground instances of Lean-proved lemmas (lemmas/Align.lean), through the definitions above -------------------------
+LEMMA_INSTANCES = []      # log for the evidence file
+
+
+def lemma_aligned_coarser(x, e, al):
+    """Align.lean int_aligned_coarser:  0 <= al <= e  and  x % 2**e == 0   ->   x % 2**al == 0"""
+    LEMMA_INSTANCES.append("int_aligned_coarser")
+    return z3.Implies(z3.And(0 <= al, al <= e, Al(x, e)), Al(x, al))
+
+
+def lemma_dvd_trans(x, a, t):
+    """Align.lean int_mod_trans with a := 2**a > 0, b := t > 0:  x % 2**a == 0 and 2**a % t == 0  ->  x % t == 0"""
+    LEMMA_INSTANCES.append("int_mod_trans")
+    return z3.Implies(z3.And(a >= 0, t >= 1, Al(x, a), Dv(t, a)), x % t == 0)
+
+
+def lemma_pow2_test(r, r_and_r_minus_1, al):
+    """Align.lean pow2_test_dvd:  r >= 1, r & (r-1) == 0, r <= 2**al  ->  2**al % r == 0.
+    `r_and_r_minus_1` is the term by which the engine names the value of the source expression `r & (r - 1)` on this path"""
+    LEMMA_INSTANCES.append("pow2_test_dvd")
+    return z3.Implies(z3.And(r >= 1, al >= 0, r_and_r_minus_1 == 0, r <= pow2(al)), Dv(r, al))
+
+
 def wf_map(v, aw, dw, al, next_addr):
     return z3.And(*[f for _, f in wf_map_parts(v, aw, dw, al, next_addr)])
 
@@ -259,7 +341,10 @@ def new_map(name, q, frozen=None):
     v = MapView(f"_{name}")
     set_view(q, m, v)
     q.assume(wf_map(v, aw, dw, al, na))
-    return m, {"aw": aw, "dw": dw, "al": al, "next": na, "frozen": fr, "view": v}
+    return m, {"aw": aw, "dw": dw, "al": al, "next": na, "frozen": fr, "view": v,
+               # opt-in second layer (only the obligations that need it add it to their premises)
+               "wf_align": z3.And(wf_align(v, al), geometry_link(m.ref, aw, dw, al)),
+               "wf_align_at": lambda k: z3.And(wf_align_instance(v, al, k), geometry_link(m.ref, aw, dw, al))}
 
 
 def name_contract(ex, recv, args, kwargs, q, node):
